@@ -125,10 +125,13 @@ func genC03(t *rapid.T) any {
 	// scale: a large table with many groups. The keys join the pool of one grouping column (so WHERE / HAVING
 	// constants and Go types fit them); the case keeps the few rows drawn below plus the recipe, Check expands it
 	scale := genScale(t, 14, "scale")
+	scaleCol := ""
 	if scale != nil {
 		var scalePool []any
-		nScaleKeys := rapid.SampledFrom([]int{2, 31, 32, 33, 40, 64, 100, 150, 250, 400}).Draw(t, "scale.keys")
+		nScaleKeys := rapid.SampledFrom([]int{2, 31, 32, 33, 40, 64, 100, 150, 250, 400, 513, 600, 1025, 1300}).Draw(t, "scale.keys")
 		gc := &sch.groupCols[rapid.IntRange(0, ng-1).Draw(t, "scale.col")]
+		scaleCol = gc.Name
+		gc.Nullable = false
 		for j := 0; j < nScaleKeys; j++ {
 			switch gc.Kind {
 			case "str":
@@ -141,6 +144,12 @@ func genC03(t *rapid.T) any {
 		}
 		gc.Pool = append(gc.Pool, scalePool...)
 		scale.genKeys(t, gc.Name, scalePool, "scale.key")
+		if rapid.Bool().Draw(t, "scale.roundrobin") {
+			scale.Steps = []int{1} // every key of the pool in turn: as many groups as the pool (or the table) allows
+		}
+		if nScaleKeys > 500 && scale.Rows <= nScaleKeys {
+			scale.Rows = nScaleKeys + rapid.IntRange(1, 300).Draw(t, "scale.morerows") // rows keep arriving after the last new group
+		}
 	}
 	nr := genRowCount(t, 0, 10, "nrows")
 	rows := []any{}
@@ -238,6 +247,16 @@ func genC03(t *rapid.T) any {
 		perm := rapid.Permutation(sch.groupCols).Draw(t, "keyperm")
 		for _, gc := range perm[:k] {
 			c.GroupCols = append(c.GroupCols, gc.Name)
+		}
+		if scaleCol != "" {
+			// the column that is spread over many keys is one of the grouping columns
+			has := false
+			for _, g := range c.GroupCols {
+				has = has || g == scaleCol
+			}
+			if !has {
+				c.GroupCols[len(c.GroupCols)-1] = scaleCol
+			}
 		}
 		if c.Shape == "group" {
 			for _, g := range c.GroupCols {
@@ -613,6 +632,12 @@ func checkC03(c *C03Case) Result {
 	}
 	if len(groups) >= 32 {
 		res.Labels = append(res.Labels, "groups>=32")
+	}
+	if len(groups) > 512 {
+		res.Labels = append(res.Labels, "groups>512")
+		if len(c.GroupCols) >= 2 {
+			res.Labels = append(res.Labels, "groups>512:two-or-more-columns")
+		}
 	}
 	res.Labels = dedup(res.Labels)
 	big := false
